@@ -8,6 +8,7 @@ pub mod c08;
 pub mod c10;
 pub mod c11;
 pub mod c12;
+pub mod c05;
 pub mod c06;
 
 pub fn lookup(id: &str) -> Option<Box<dyn Prop>> {
@@ -21,6 +22,7 @@ pub fn lookup(id: &str) -> Option<Box<dyn Prop>> {
         "C12" => Some(Box::new(c12::C12)),
         "C07" => Some(Box::new(c07::C07)),
         "C08" => Some(Box::new(c08::C08)),
+        "C05" => Some(Box::new(c05::C05)),
         _ => None,
     }
 }
